@@ -138,6 +138,19 @@ impl<T: Read + Seek> PagedReader<T> {
     }
 }
 
+#[cfg(e57_verif)]
+impl<T: Read + Seek> PagedReader<T> {
+    /// Verification hook: (logical offset, cached page number, copy of the page buffer).
+    pub fn verif_state(&self) -> (u64, Option<u64>, Vec<u8>) {
+        (self.offset, self.page_num, self.page_buffer.clone())
+    }
+
+    /// Verification hook: access to the underlying device.
+    pub fn verif_device(&mut self) -> &mut T {
+        &mut self.reader
+    }
+}
+
 impl<T: Read + Seek> Read for PagedReader<T> {
     fn read(&mut self, buf: &mut [u8]) -> Result<usize> {
         let page = self.offset / (self.page_size - CHECKSUM_SIZE);
